@@ -89,6 +89,19 @@ Proof.
     rewrite (entries_persisted_same_log _ _ _ Hlog). exact Hc.
 Qed.
 
+Lemma NoDup_app_l {A} (a b : list A) : NoDup (a ++ b) -> NoDup a.
+Proof.
+  induction a as [|x a IH]; cbn; intro H; [constructor|]. inversion H; subst.
+  constructor; [intro X; apply H2; apply in_or_app; left; exact X | apply IH; exact H3].
+Qed.
+Lemma NoDup_app_r {A} (a b : list A) : NoDup (a ++ b) -> NoDup b.
+Proof. induction a as [|x a IH]; cbn; intro H; [exact H|]. inversion H; subst. apply IH. exact H3. Qed.
+Lemma NoDup_app_disjoint {A} (a b : list A) : NoDup (a ++ b) -> forall x, In x a -> ~ In x b.
+Proof.
+  induction a as [|y a IH]; cbn; intros H x Hx; [tauto|]. inversion H; subst.
+  destruct Hx as [-> | Hx]; [intro Y; apply H2; apply in_or_app; right; exact Y | apply IH; assumption].
+Qed.
+
 (* ---- a successful round is backed by a write quorum of holders ------------------------------------------ *)
 
 Section Round.
@@ -172,14 +185,10 @@ Section Round.
         destruct ((ld || outcome_durable o && isLocal) && (wq <=? votes')) eqn:Hq.
         * destruct (submit_all n local p next []) as [n1 q1] eqn:Hs. inversion H; subst.
           apply andb_true_iff in Hq. destruct Hq as [_ Hq].
-          exists done. split; [eapply NoDup_app_remove_r; eauto|]. split; [apply incl_appl, incl_refl|].
+          exists done. split; [eapply NoDup_app_l; eauto|]. split; [apply incl_appl, incl_refl|].
           assert (He : H_count n' done = H_count n done).
           { apply H_count_ext. intros w Hw. eapply submit_all_other; eauto.
-            intro X. apply NoDup_app_remove_l in Hnd as Hx. clear Hx.
-            assert (Hdis : forall x, In x done -> ~ In x next).
-            { clear - Hnd. induction done as [|d done IHd]; [tauto|]. cbn in Hnd. inversion Hnd; subst.
-              intros x [-> | Hx]; [intro Y; apply H1; apply in_or_app; auto | apply IHd; auto]. }
-            exact (Hdis _ Hw X). }
+            intro X. exact (NoDup_app_disjoint _ _ Hnd _ Hw X). }
           rewrite He. lia.
         * destruct (isLocal && negb (outcome_durable o)).
           -- destruct (submit_all n local p next queue') as [n1 q1] eqn:Hs.
@@ -196,7 +205,7 @@ Section Round.
                 ** destruct (submitReplica n local v p) as [n1 o1] eqn:Hs.
                    assert (Hsa : submit_all n local p [v] queue' = (n1, queue' ++ [(false, o1)])) by (cbn; rewrite Hs; reflexivity).
                    assert (Hnd1 : NoDup (done ++ [v])).
-                   { apply (NoDup_app_remove_r _ next'). rewrite <- app_assoc. exact Hnd. }
+                   { apply (NoDup_app_l _ next'). rewrite <- app_assoc. exact Hnd. }
                    destruct (submit_all_inv _ _ _ _ _ _ _ Hsa Hnd1 Hinv') as [I1 _]. cbn [rev app] in I1.
                    destruct (IH _ _ _ _ _ _ _ _ _ _ _ (v :: done) H) as (S & S1 & S2 & S3); auto.
                    --- cbn. apply (Permutation_NoDup (l := done ++ v :: next')); [|exact Hnd].
@@ -253,15 +262,18 @@ Proof.
   { constructor; [apply round_followers_not_local | apply round_followers_NoDup; exact Hnd]. }
   assert (Hsplit : fs = firstn (N.to_nat (wq - 1)) fs ++ skipn (N.to_nat (wq - 1)) fs) by (symmetry; apply firstn_skipn).
   assert (Hnd1 : NoDup ([local] ++ firstn (N.to_nat (wq - 1)) fs)).
-  { cbn. apply (NoDup_app_remove_r _ (skipn (N.to_nat (wq - 1)) fs)). cbn. rewrite <- Hsplit. exact Hfs. }
+  { cbn. apply (NoDup_app_l _ (skipn (N.to_nat (wq - 1)) fs)). cbn. rewrite <- Hsplit. exact Hfs. }
   assert (Hinv0 : 0 + durq [(true, o1)] <= H_count p n1 [local]).
   { unfold durq, H_count. rewrite !countb_cons. cbn [snd]. rewrite Hdur, Hlocal1. unfold countb. cbn. lia. }
   destruct (submit_all_inv local p _ _ _ _ _ _ _ Hs Hnd1 Hinv0) as [I1 _].
   assert (Hnd2 : NoDup ((rev (firstn (N.to_nat (wq - 1)) fs) ++ [local]) ++ skipn (N.to_nat (wq - 1)) fs)).
   { apply (Permutation_NoDup (l := local :: fs)); [|exact Hfs].
-    rewrite Hsplit at 1. rewrite <- app_assoc. cbn.
-    rewrite (Permutation_app_comm (rev _) (local :: _)). cbn. constructor.
-    rewrite Permutation_app_comm. apply Permutation_app_tail. apply Permutation_rev. }
+    rewrite Hsplit at 1.
+    change (local :: firstn (N.to_nat (wq - 1)) fs ++ skipn (N.to_nat (wq - 1)) fs)
+      with ((local :: firstn (N.to_nat (wq - 1)) fs) ++ skipn (N.to_nat (wq - 1)) fs).
+    apply Permutation_app_tail.
+    transitivity (local :: rev (firstn (N.to_nat (wq - 1)) fs));
+      [constructor; apply Permutation_rev | apply Permutation_cons_append]. }
   destruct (round_loop_inv local p _ _ _ _ _ _ _ _ _ _ _ _ _ H Hnd2 I1 Hok) as (S & S1 & S2 & S3).
   exists S. split; [exact S1|]. split; [|exact S3].
   intros x Hx. specialize (S2 x Hx). apply in_app_or in S2. destruct S2 as [S2 | S2].
@@ -323,8 +335,9 @@ Proof.
     + destruct (negb (sameAuthority a cur)); [inversion H; subst; split; [reflexivity|]; exists EConflict; left; reflexivity|].
       destruct (a_wf a) eqn:Hwf; [inversion H; subst; split; [reflexivity|]; exists EFenced; left; reflexivity|].
       destruct (qc_ready st) eqn:Hrd.
-      * inversion H; subst. split; [reflexivity|]. exists EOk. right. eauto.
-      * apply (Htail st). rewrite Hwf. exact H.
+      * inversion H; subst. split; [reflexivity|]. exists EOk. right. do 3 eexists.
+        split; [reflexivity|]. split; [reflexivity | first [reflexivity | exact Hrd]].
+      * apply (Htail st). exact H.
     + inversion H; subst. split; [reflexivity|]. exists EStale. left. reflexivity.
     + apply (Htail (fenceQuorumChannel a)). exact H.
   - apply (Htail (fenceQuorumChannel a)). exact H.
@@ -364,3 +377,27 @@ Lemma f1_two_commits_fail_closed :
       RNone; RNone; RErr EConflict; RNone; RInstalled (1, 2, 2) 3 3 ] /\
   C01_monitor (model_case f1_cfg f1_two_commits_ops) = 0.
 Proof. repeat split; vm_compute; reflexivity. Qed.
+
+Lemma round_followers_incl voters local rot : incl (round_followers voters local rot) voters.
+Proof.
+  unfold round_followers. intros x Hx.
+  assert (X : In x (filter (fun v => negb (v =? local)) voters)).
+  { destruct (1 <? lenN _); [apply rotate_In in Hx|]; exact Hx. }
+  apply filter_In in X. tauto.
+Qed.
+
+(* c01_receipt_implies_quorum: whenever Commit takes the finish path (the only path that issues a
+   NEW receipt), right after the call the leader and at least WriteQuorum distinct voters hold
+   every entry of the acknowledged range, identical *)
+Lemma Commit_fresh_receipt_quorum cfg n st local p a d n1 res :
+  NoDup (a_voters a) -> In local (a_voters a) ->
+  sealBusinessProposal a (qc_frontier st) (qc_hw st) (pr_cmd p) (pr_records p) (pr_sa p) = Some d ->
+  runDurableRound n local (a_voters a) (a_q a) (cf_rot cfg) d = (n1, res) -> rr_ok res = true ->
+  holdsP d n1 local = true /\
+  exists S, NoDup S /\ incl S (a_voters a) /\ a_q a <= H_count d n1 S.
+Proof.
+  intros Hnd Hin Hseal Hr Hok.
+  destruct (runDurableRound_quorum _ _ _ _ _ _ _ _ Hnd Hr Hok) as (Hl & S & S1 & S2 & S3).
+  split; [exact Hl|]. exists S. split; [exact S1|]. split; [|exact S3].
+  intros x Hx. destruct (S2 x Hx) as [<- | Hf]; [exact Hin | exact (round_followers_incl _ _ _ _ Hf)].
+Qed.
